@@ -1388,6 +1388,34 @@ func runTermination(p *Prog, r *Report) {
 					okp = true
 				}
 			}
+			if as, isAs := par.(*ast.AssignStmt); isAs && len(as.Lhs) == 1 && len(as.Rhs) == 1 {
+				// held in a local that is only ever passed as the walker argument of Walk
+				if id, ok := ast.Unparen(as.Lhs[0]).(*ast.Ident); ok {
+					if o := info.ObjectOf(id); o != nil && len(fn.Assignments(o)) == 1 {
+						okp = true
+						nUse := 0
+						ast.Inspect(rootOf(fn).Body, func(z ast.Node) bool {
+							uid, isId := z.(*ast.Ident)
+							if !isId || info.Uses[uid] != o {
+								return true
+							}
+							nUse++
+							c, isCall := p.Parent(uid).(*ast.CallExpr)
+							if !isCall {
+								okp = false
+								return true
+							}
+							if f := calleeOf(info, c); f == nil || fname(f) != "Walk" {
+								okp = false
+							}
+							return true
+						})
+						if nUse == 0 {
+							okp = false
+						}
+					}
+				}
+			}
 			if _, isRet := par.(*ast.ReturnStmt); isRet && fn.Obj != nil {
 				// a constructor: every call of it must itself be the walker argument of Walk
 				sites := buildCallers(p)[fn.Obj]
